@@ -559,3 +559,62 @@ def accepts_text(d: DFA, alpha: Alphabet, text: str) -> Optional[bool]:
             return None
         s = d.trans[s][c]
     return s in d.accept
+
+
+def product_dfa(a: DFA, b: DFA, want) -> DFA:
+    """Materialised product automaton accepting words w with want(a accepts w, b accepts w)."""
+    index: Dict[Tuple[int, int], int] = {(a.start, b.start): 0}
+    order = [(a.start, b.start)]
+    trans: List[List[int]] = []
+    i = 0
+    while i < len(order):
+        sa, sb = order[i]
+        row = []
+        for c in range(a.nsyms):
+            nx = (a.trans[sa][c], b.trans[sb][c])
+            j = index.get(nx)
+            if j is None:
+                j = index[nx] = len(order)
+                order.append(nx)
+            row.append(j)
+        trans.append(row)
+        i += 1
+    accept = {i for i, (sa, sb) in enumerate(order) if want(sa in a.accept, sb in b.accept)}
+    return DFA(a.nsyms, trans, accept, 0)
+
+
+def state_classes(d: DFA) -> List[int]:
+    """Moore partition refinement: state -> equivalence class id (same residual language)."""
+    cls = [1 if s in d.accept else 0 for s in range(len(d.trans))]
+    while True:
+        sig: Dict[Tuple, int] = {}
+        new = []
+        for s in range(len(d.trans)):
+            k = (cls[s],) + tuple(cls[t] for t in d.trans[s])
+            if k not in sig:
+                sig[k] = len(sig)
+            new.append(sig[k])
+        if len(set(new)) == len(set(cls)):
+            return new
+        cls = new
+
+
+def shortest_accepted(d: DFA) -> Optional[List[int]]:
+    from collections import deque
+    prev: Dict[int, Optional[Tuple[int, int]]] = {d.start: None}
+    q = deque([d.start])
+    while q:
+        s = q.popleft()
+        if s in d.accept:
+            w = []
+            cur = s
+            while prev[cur] is not None:
+                p, c = prev[cur]  # type: ignore
+                w.append(c)
+                cur = p
+            return w[::-1]
+        for c, t in enumerate(d.trans[s]):
+            if t not in prev:
+                prev[t] = (s, c)
+                q.append(t)
+    return None
